@@ -816,15 +816,19 @@ class TLSConnection(TLSRecordLayer):
             extensions.append(ext)
 
         groups = []
+        # in TLS 1.3 the key exchange group is independent of cipher suite
+        tls13_suites = next((cipher for cipher in cipherSuites
+                             if cipher in CipherSuite.tls13Suites),
+                            None) is not None and shares is not None
         # Send the ECC extensions only if we advertise ECC ciphers
-        if next((cipher for cipher in cipherSuites \
+        if tls13_suites or next((cipher for cipher in cipherSuites \
                 if cipher in CipherSuite.ecdhAllSuites), None) is not None:
             groups.extend(self._curveNamesToList(settings))
             if settings.ec_point_formats:
                 extensions.append(ECPointFormatsExtension().\
                                 create(settings.ec_point_formats))
         # Advertise FFDHE groups if we have DHE ciphers
-        if next((cipher for cipher in cipherSuites
+        if tls13_suites or next((cipher for cipher in cipherSuites
                  if cipher in CipherSuite.dhAllSuites), None) is not None:
             groups.extend(self._groupNamesToList(settings))
         # Send the extension only if it will be non empty
